@@ -165,6 +165,22 @@ let step (st : state) (op : string) (args : string list) : string * state =
   | Pol p, "cost", [ k ] -> (
       match aget (n_of_string k) p.p_s.sl_kc with Some c -> (string_of_z c, st) | None -> ("-1", st))
   | Pol p, "cap", [] -> (string_of_z (Z.sub p.p_s.sl_max p.p_s.sl_used), st)
+  (* ---- keys / builder validation ---- *)
+  | _, "tkey", [ kind; x ] ->
+      let k =
+        match kind with
+        | "bool" -> KBool | "u8" -> KU8 | "u16" -> KU16 | "u32" -> KU32 | "u64" -> KU64 | "usize" -> KUsize
+        | "i8" -> KI8 | "i16" -> KI16 | "i32" -> KI32 | "i64" -> KI64 | "isize" -> KIsize
+        | _ -> raise (Bad_trace "kind")
+      in
+      let x = z_of_string x in
+      (Printf.sprintf "%s %s" (string_of_z (transparent_index k x)) (string_of_z (transparent_conflict k x)), st)
+  | _, "validate", [ nc; mc; bs ] -> (
+      match validate (n_of_string nc) (z_of_string mc) (n_of_string bs) with
+      | None -> ("ok", st)
+      | Some InvalidNumCounters -> ("InvalidNumCounters", st)
+      | Some InvalidMaxCost -> ("InvalidMaxCost", st)
+      | Some InvalidBufferSize -> ("InvalidBufferSize", st))
   (* ---- cache ---- *)
   | _, "cnew", _ -> let o, c = Cachedrv.create args in (o, Cache c)
   | Cache c, _, _ -> let o, c' = Cachedrv.step c op args in (o, Cache c')
